@@ -860,6 +860,10 @@ func (c *Ctx) show(sb *strings.Builder, t *Term, d int) {
 		fmt.Fprintf(sb, "%q", t.Name)
 	case "cell":
 		fmt.Fprintf(sb, "&cell%d", t.Idx)
+	case "vcell":
+		sb.WriteString("&val(")
+		c.show(sb, t.Args[0], d+1)
+		sb.WriteString(")")
 	case "clo":
 		fmt.Fprintf(sb, "clo<%s>", t.Fn.Name())
 		if len(t.Args) > 0 {
